@@ -20,6 +20,35 @@ Theorem C19_refuse_command f pa s p q : pa <> EarlyErr -> lockf s = Some (LPid q
 Proof. exact (refuse_command f pa s p q). Qed.
 Print Assumptions C19_refuse_command.
 
+(* ... and leaves the whole state as it was — lock file, temporary lock files, the other processes' caches — except
+   that the refused process is gone *)
+Theorem C19_refuse_changes_nothing f pa s p q : pa <> EarlyErr -> lockf s = Some (LPid q) -> mem q (dead s) = false ->
+  let s' := fst (command fixed f pa s p) in
+  s' = fst (kill1 s p) /\ lockf s' = lockf s /\ tmpf s' = tmpf s /\ holders s' = rm p (holders s).
+Proof. exact (refuse_command_frame f pa s p q). Qed.
+Print Assumptions C19_refuse_changes_nothing.
+
+(* a web UI asked to stop while it serves a request waits for the request before it closes the cache: as long as it
+   lives it holds, its lock stays and names it, everybody else is refused; once the request has ended the lock is gone *)
+Theorem C19_shutdown_keeps_lock s p q : inv s -> In p (holders s) ->
+  let s1 := ask WaitThenClose s p in
+  In p (holders s1) /\ lockf s1 = Some (LPid p) /\ open_atomic s1 q = (s1, Refused p) /\ inv (finish WaitThenClose s1 p) /\
+  lockf (finish WaitThenClose s1 p) = None.
+Proof. exact (asked_keeps_lock s p q). Qed.
+Print Assumptions C19_shutdown_keeps_lock.
+
+(* no temporary lock file is left by any schedule of opens (granted or refused), closes, kills and failing commands in
+   which nobody dies in the middle of an open; by a whole command on any path; and one that is there belongs to a process that is gone *)
+Theorem C19_no_stray_tmp es s : forallb (fun e => negb (crashes e)) es = true -> tmpf s = [] -> tmpf (arun s es) = [].
+Proof. exact (no_stray_tmp es s). Qed.
+Print Assumptions C19_no_stray_tmp.
+Theorem C19_command_leaves_no_tmp f pa s p : tmpf s = [] -> tmpf (fst (command fixed f pa s p)) = [].
+Proof. exact (command_no_tmp f pa s p). Qed.
+Print Assumptions C19_command_leaves_no_tmp.
+Theorem C19_tmp_of_dead s : areach s -> forall x, In x (tmpf s) -> mem x (dead s) = true.
+Proof. exact (tinv_areach s). Qed.
+Print Assumptions C19_tmp_of_dead.
+
 (* the holder has died leaving its lock behind: the next open succeeds and the lock names the opener *)
 Theorem C19_stale s p q : inv s -> lockf s = Some (LPid q) -> mem q (dead s) = true ->
   snd (open_atomic s p) = Granted /\ lockf (fst (open_atomic s p)) = Some (LPid p) /\ In p (holders (fst (open_atomic s p))).
@@ -106,6 +135,15 @@ Theorem C19_close_on_refusal_refuted : exists s, inv s /\ lockf s = Some (LPid 1
   lockf s' = None /\ In 1 (holders s') /\ mem 1 (dead s') = false.
 Proof. exact close_on_refusal_refuted. Qed.
 Print Assumptions C19_close_on_refusal_refuted.
+
+(* a shutdown that closes the cache first and waits for the requests afterwards: the lock of a live process that is
+   still serving is gone, the next process is admitted next to it *)
+Theorem C19_early_release_refuted : exists s, inv s /\ In 1 (holders s) /\
+  let s1 := ask CloseThenWait s 1 in
+  lockf s1 = None /\ mem 1 (dead s1) = false /\
+  snd (open_atomic s1 2) = Granted /\ holders (fst (open_atomic s1 2)) = [2; 1] /\ dead (fst (open_atomic s1 2)) = [].
+Proof. exact early_release_refuted. Qed.
+Print Assumptions C19_early_release_refuted.
 
 (* ---- the hypotheses are satisfiable ---- *)
 (* a session: 1 opens, 2 is refused, 1 is killed, 3 cleans the stale lock and holds, 3's command fails and releases, 4 crashes
